@@ -84,8 +84,13 @@ type target struct {
 
 // alphabet in ascending byte order; one number of a spec id = one character.
 // UTF-8 keeps code point order, so the spec's lexicographic order of number
-// sequences is the byte order of the strings.
-var alphabet = []string{"", "-", "/", "a", "ü", "中"}
+// sequences is the byte order of the strings.  The characters are chosen so that
+// byte order differs from every "friendly" order: a digit, an upper-case letter
+// that sorts before the lower-case ones in bytes but between them when case is
+// folded ("B" < "a" < "c", yet "a" < "b" < "c"), an accented capital and a CJK
+// character (collation / case folding move those too).  A listing that is sorted
+// or searched by anything but plain string comparison shows up in the walks.
+var alphabet = []string{"", "1", "B", "a", "c", "É", "中"}
 
 func idString(id []int) string {
 	var b strings.Builder
